@@ -36,6 +36,7 @@ func main() {
 	ops := flag.Int("ops", 30, "operations per history")
 	outPath := flag.String("out", "-", "trace output file")
 	in := flag.String("in", "", "ops file for -profile replay")
+	repo := flag.String("repo", "/repo", "source tree for the translators")
 	flag.Parse()
 
 	var w *bufio.Writer
@@ -51,6 +52,26 @@ func main() {
 		w = bufio.NewWriterSize(f, 1<<20)
 	}
 	defer w.Flush()
+
+	switch *profile {
+	case "consts":
+		genConsts(w)
+		return
+	case "notifyprog":
+		if err := genNotify(w, *repo); err != nil {
+			w.Flush()
+			fmt.Fprintln(os.Stderr, "notifyprog:", err)
+			os.Exit(1)
+		}
+		return
+	case "facts":
+		if err := genFacts(w, *repo); err != nil {
+			w.Flush()
+			fmt.Fprintln(os.Stderr, "facts:", err)
+			os.Exit(1)
+		}
+		return
+	}
 
 	root := scratchRoot()
 	defer os.RemoveAll(root)
